@@ -70,7 +70,11 @@ func scenarioP(c *harness.Ctx) {
 		total := 0
 		for k := tp.Choose(10); k >= 0; k-- {
 			id := gen.PacketID(tp)
-			l := gen.PayloadLen(tp, s.threshold, id, 1500)
+			maxLen := 1500
+			if s.threshold > maxLen && total < 40000 && tp.Bool(1, 2) {
+				maxLen = s.threshold + 64 // several KiB just below/at/above a mid-range threshold
+			}
+			l := gen.PayloadLen(tp, s.threshold, id, maxLen)
 			s.pkts = append(s.pkts, pk.Packet{ID: id, Data: gen.Fill(tp, l, 40+i, len(s.pkts))})
 			total += l + 8
 		}
